@@ -371,6 +371,9 @@ def apply(op, w, stats, rngless=None):
         v['mv'][i, j] = val
         M.v[j * m0 + i] = MDL.conv(val, M.tc)
         w.flags.add('mut_while_exported')
+        bump('probe.write_through_view')
+        if not w.owner_names(v['oid']):
+            bump('probe.write_through_view_whose_owner_has_no_name_left')
         return
     if kind == 'write_owner':
         if op[1] not in w.names:
@@ -413,6 +416,7 @@ def apply(op, w, stats, rngless=None):
         del w.names[op[1]]
         if not w.owner_names(oid) and any(vv['oid'] == oid and not vv['released'] for vv in w.views.values()):
             w.flags.add('owner_dropped_with_live_view')
+            bump('probe.last_name_of_owner_dropped_while_a_view_is_live')
         w.collect()
         return
     if kind == 'resize':
@@ -746,6 +750,8 @@ def run_ops(ops, journal, rng=None, nops=0, stats=None, alloc_mode='guard'):
         stats['steps'] = stats.get('steps', 0) + 1
         i += 1
     nontrivial = bool(w.flags & {'export_outlived_event', 'stream_fault_fired'})
+    for fl in sorted(w.flags):
+        stats['probe.history_with_' + fl] = stats.get('probe.history_with_' + fl, 0) + 1
     # drop everything deterministically — inside the journalled region: a reference-count error made
     # earlier in the history typically kills the interpreter here
     if violation is None:
